@@ -86,3 +86,4 @@ fn decomp_check<const N: usize>() {
 }
 #[kani::proof] #[kani::unwind(6)] fn decomp_d1() { decomp_check::<1>() }
 #[kani::proof] #[kani::unwind(8)] fn decomp_d2() { decomp_check::<2>() }
+#[kani::proof] #[kani::unwind(10)] fn decomp_d3() { decomp_check::<3>() }
